@@ -56,6 +56,8 @@ def first_expr(fn, pattern, env=None):
 
 def check(ctx):
     repo = ctx.repo
+    from . import generic as _gen
+    _gen.language_traps(ctx, _gen.anchor_functions(repo, "C04"), "the property holds for every input, on every call")
     I = interp(repo)
     for r, t in (("IDX-2", "one key tuple for sort / unique / select; ascending; single stable ordering"),
                  ("IDX-3", "index vectors are created on, and applied to, the frame they index; ordering of attach/sort"),
